@@ -394,6 +394,7 @@ Hopen(const char *path, int acc_mode, int16 ndds)
 
         /* currently, default is caching OFF */
         file_rec->cache = default_cache;
+        file_rec->lastref = 0;
         file_rec->dirty = 0; /* mark all dirty flags off to start */
     }                        /* end else */
 
